@@ -24,10 +24,10 @@ func init() {
 			"(temp files created, mid-write, before/after each sync and rename, directory sync, publication, meta removal, docs removal); then, each from a pristine copy of the pre-seal directory in a fresh process: " +
 			"(a) the k-th hit of each fault point returns an I/O error, for every k; (b) the process crashes at the k-th hit of each crash point, followed by a power-loss variant (files not covered by a completed sync truncated to a seeded length). " +
 			"oracle after restart (twice): the store comes up and every document is listed, found by its tokens and fetched byte-identical; offline check of the hook event log: no rename to .index/.sdocs without a completed sync of the temp file, " +
-			"no removal of .meta/.docs before sync+rename+directory-sync of the index, nothing published or removed after an injected fault. " +
+			"no removal of .meta/.docs before sync+rename+directory-sync of the index, nothing published or removed after an injected fault; the clean seal also runs under strace with the same two rules judged on the syscalls themselves (writes covered by a completed fsync before the rename; directory fsync after the index rename before the unlinks). " +
 			"case = one (corpus, fault or crash point, k); non-trivial = the injection point was reached; distinct = (point, k, configuration)",
 		Assumptions: []string{"crash = os.Exit in a hook; power loss = truncation of files whose content no completed sync covers; directory-entry durability not modelled"},
-		Batches:     tiered(16, 128),
+		Batches:     tiered(48, 640),
 		Run:         runC08,
 		Timeout:     timeoutFor(10*time.Minute, 45*time.Minute),
 	})
